@@ -4,8 +4,8 @@ Model: lean/HydroVerif/Model/C11.lean (imports the integer grid core of the C07 
 lemmas: Lemmas/C11.lean, Lemmas/C11Sum.lean; theorems: lean/HydroVerif/Props/C11.lean.
 Correspondence (Float instance of the model vs the real code on the freshly built extension):
 `hydrodiy.gis.grid.accumulate(flowdir, to_accumulate, max_accumulated_cells=...)` — result data, error kind —
-through the Python wrapper; `c_hydrodiy_gis.accumulate` called directly on buffers whose accumulation array
-is NOT a copy of the field (zeros, random) and on degenerate shapes; `Catchment.downstream` (the
+through the Python wrapper; `c_hydrodiy_gis.accumulate` called directly as the wrapper calls it (accumulation = copy
+of the field; both float buffers read back), other direct calls only as "returns"; `Catchment.downstream` (the
 one-entry `c_downstream` call the walk makes). The flow-direction code table is read from grid.py's
 FLOWDIRCODE at run time and sent with every request. Values are compared within the rounding budget of a sum in a
 different order (4*n*2^-52*sum|field|), i.e. exactly for integer-valued fields; the summation order is not
@@ -251,6 +251,12 @@ class Runner:
         return {"base": int(m.group(1)) if m else None, "src": src}
 
     def err_kind(self, ierr):
+        try:
+            return self._err_kind(ierr)
+        except Exception:  # noqa  (source reorganised: the kind is informative only, never compared)
+            return f"code{ierr}"
+
+    def _err_kind(self, ierr):
         base, src = self.guards["base"], self.guards["src"]
         if base is None:
             return f"code{ierr}"
@@ -400,6 +406,11 @@ class Runner:
                 "alias": bool(alias)}
         ierr = int(self.ext.accumulate(NPRINT, cap, nodata, self.G.FLOWDIRCODE, fda, fa, acc))
         impl = ("okS", [float(v) for v in fa.ravel()], [float(v) for v in acc.ravel()]) if ierr == 0 else ("err", self.err_kind(ierr))
+        if cap < 1 or nrows < 1 or ncols < 1:
+            # a direct kernel call with a limit < 1 or a grid without rows / columns (a Grid always has both; a bad limit
+            # is compared through the wrapper, as rejected-vs-accepted): it must return (no crash), nothing is compared
+            ctx.count(("k0", nrows, ncols, cap), False, f"kernel/{tag}/not_compared")
+            return
         self.reqs.append(f"caccs {nrows} {ncols} {self.codes_tok} {C.ilist(fd)} {cap} {C.f2h(nodata)} "
                          f"{C.flist(fvals)} {C.flist([] if alias else acc0)} {1 if alias else 0}")
         self.info.append((case, impl, list(fvals) + list(acc0), nodata, self.mult(nrows, ncols, fd, cap)))
@@ -533,12 +544,25 @@ class Runner:
                                      {"request": req[:400], **case, "oracle": [impl[1], impl[2]], "model": [mclo, mups]})
                     continue
                 if rep.startswith("err:") or impl[0] == "err":
-                    a = "err:" + impl[1] if impl[0] == "err" else "ok"
-                    b = rep if rep.startswith("err:") else "ok"
+                    # rejected vs accepted only: neither the wording, nor the error class, nor the layer that
+                    # rejects (wrapper or kernel) is fixed by the property
+                    a = "rejected" if impl[0] == "err" else "ok"
+                    b = "rejected" if rep.startswith("err:") else "ok"
                     if a != b:
-                        ctx.disagree("C11: error behaviour differs from the model", {"request": req[:400], **case, "impl": a, "model": b})
+                        ctx.disagree("C11: a call is rejected by one of implementation / model and accepted by the other",
+                                     {"request": req[:400], **case, "impl": a + (":" + str(impl[1]) if a != "ok" else ""), "model": rep[:40]})
                     continue
                 toks = rep[3:].split(" ")
+                # T1: every walk ends before the limit (acyclic grid, limit that truncates nothing) — the region where
+                # the property fixes the values. Elsewhere (cycles, truncating limit) only "returns without error" is
+                # required, and only that is compared.
+                region = toks[-1] == "T1"
+                toks = toks[:-1]
+                if not region:
+                    n_out = len(impl[2]) if impl[0] == "okS" else len(impl[1])
+                    if n_out != len(C.parse_list(toks[1] if impl[0] == "okS" else toks[0])):
+                        ctx.disagree("C11: number of cells of the result differs from the model", {"request": req[:400], **case})
+                    continue
                 if impl[0] == "okS":
                     # kernel on explicit memory: both float buffers after the call
                     mfield, vals, sens = toks
@@ -564,7 +588,10 @@ class Runner:
                 sens = {int(t) for t in C.parse_list(sens)}
                 out = impl[1]
                 scale = sum(abs(v) for v in mags if v == v and abs(v) != float("inf")) + (abs(nd) if nd == nd else 0.0)
-                tol = 4 * max(len(out), 1) * mult * EPS * scale
+                # another order of summation is allowed: rounding budget for float fields; integer-valued fields
+                # (the unit field among them) whose sums stay below 2**52 are exact in any order -> exact comparison
+                integral = all(v == v and abs(v) != float("inf") and v == int(v) for v in mags) and scale < 2.0 ** 52
+                tol = 0.0 if integral else 4 * max(len(out), 1) * mult * EPS * scale
                 bad = len(model) != len(out)
                 if not bad:
                     for i, (a, b) in enumerate(zip(out, model)):
@@ -814,9 +841,11 @@ def _body(ctx, rng):
         if it % 5 == 0:
             R.spec_case(nrows, ncols, [v for v in fd])
         if it % 3 == 0:
-            # the kernel on explicit buffers: accumulation not initialised from the field
+            # the kernel on explicit memory, called as the wrapper calls it: the accumulation buffer is a copy of the
+            # field (what the kernel does with any other initial content is not fixed by the property and not compared);
+            # both float buffers are read back after the call
             fvals = gen_field(rng, n, rng.choice(FIELD_KINDS[1:-1]), -9999.0)
-            acc0 = rng.choice([[0.0] * n, [float(rng.randint(-4, 4)) for _ in range(n)], list(fvals)])
+            acc0 = list(fvals)
             cap = rng.choice([n, n, max(fl.longest, 1), max(fl.longest - 1, 1), fl.longest + 1, 1, 2, 3, n + 1])
             R.kernel_case(nrows, ncols, fd, fvals, rng.choice([-9999.0, float("nan"), -1.0]), cap, acc0, tag=gk)
         if it % 500 == 499:
